@@ -56,7 +56,7 @@ func runRapidCase(rt *rapid.T, prod producer, layer string, maxSteps int) {
 func TestPropMsgLayerModel(t *testing.T) {
 	base := goroutineBaseline()
 	defer failIfInconclusive(t)
-	vstat.Checks(1300, 60000)
+	checks(1300, 60000)
 	srv := newSnapServer()
 	func() {
 		defer srv.close()
@@ -73,7 +73,7 @@ func TestPropMsgLayerModel(t *testing.T) {
 func TestPropMsgLayerRealActive(t *testing.T) {
 	base := goroutineBaseline()
 	defer failIfInconclusive(t)
-	vstat.Checks(600, 20000)
+	checks(600, 20000)
 	rapid.Check(t, func(rt *rapid.T) {
 		skipIfInconclusive(rt)
 		runRapidCase(rt, newRealProducer(), "msg/real-active", 24)
